@@ -103,7 +103,7 @@ def runRfc822Hdr (args : List String) : String :=
   match args with
   | [hdr, names] =>
     let h := unhex hdr
-    let want := (unhexList names).map lowerBytes
+    let want := (unhexList names).map goLower       -- wantFields[strings.ToLower(field)]
     match parseEntries h with
     | .error e => "err " ++ showHErr e
     | .ok es => s!"ok keys={hexList (keysOf h es)} f={hex (fields h es want)} n={hex (fieldsNot h es want)}"
@@ -217,14 +217,33 @@ def topIsMessageRfc822 (l : Bytes) : Bool :=
     containsSub [109, 101, 115, 115, 97, 103, 101, 47, 114, 102, 99, 56, 50, 50] (lowerBytes ln)
 
 
+/-- the requested names as the reference semantics reads them: ASCII letters folded, nothing else -/
+def specWant (names : String) : List Bytes := (unhexList names).map lowerBytes
+
+/-- A HEADER.FIELDS / HEADER.FIELDS.NOT answer `got` differs from the reference selection: classify.
+    `-unicode-fold-of-requested-name`: the answer is the reference selection for the names folded the way
+    `strings.ToLower` folds them (U+212A -> k, U+0130 -> i; finding d28), i.e. a non-ASCII requested name
+    matched an ASCII field name; `-name-selection`: the answer is a different subset of the header's fields
+    (some field sits on the wrong side), the bytes of the returned fields are intact. -/
+def fieldsMismatchShape (negate : Bool) (names : String) (h got : Bytes) : String :=
+  let goWant := (unhexList names).map goLower
+  if goWant != specWant names && got == Spec.selectFields negate goWant h then "-unicode-fold-of-requested-name"
+  else
+    let ls := Spec.logicalLines h
+    let rec sub : List Bytes → Bytes → Bool
+      | [], g => g.isEmpty
+      | l :: rest, g => (l.isPrefixOf g && sub rest (g.drop l.length)) || sub rest g
+    if sub ls got then "-name-selection" else ""
+
 /-- HEADER.FIELDS / HEADER.FIELDS.NOT split the fields of a well-formed header without loss or
-    duplication, each field with its exact bytes. -/
+    duplication, each field with its exact bytes, and each field is on the side its name puts it: in
+    FIELDS iff its name equals a requested name up to the case of ASCII letters. -/
 def judgeC13Hdr (args : List String) : String :=
   if notAnOp args then "ok trivial-not-an-op" else
   match args with
   | hdr :: names :: "=>" :: out =>
     let h := unhex hdr
-    let want := (unhexList names).map lowerBytes
+    let want := specWant names
     let wf := Spec.wellFormed h
     match out with
     | ["panic"] => "violation panic"
@@ -237,10 +256,20 @@ def judgeC13Hdr (args : List String) : String :=
       | some f, some n =>
         if !wf then "ok trivial-not-wellformed"
         else if unhex f != Spec.selectFields false want h then
-          (if hasEmptyValuedField h then "violation fields-not-exact-empty-valued-field" else "violation fields-not-exact")
+          (let shape := fieldsMismatchShape false names h (unhex f)
+           if shape != "" then "violation fields-not-exact" ++ shape
+           else if hasEmptyValuedField h then "violation fields-not-exact-empty-valued-field"
+           else "violation fields-not-exact")
         else if unhex n != Spec.selectFields true want h then
-          (if hasEmptyValuedField h then "violation fieldsnot-not-exact-empty-valued-field" else "violation fieldsnot-not-exact")
-        else if Spec.hasField h then "ok nontrivial" else "ok trivial"
+          (let shape := fieldsMismatchShape true names h (unhex n)
+           if shape != "" then "violation fieldsnot-not-exact" ++ shape
+           else if hasEmptyValuedField h then "violation fieldsnot-not-exact-empty-valued-field"
+           else "violation fieldsnot-not-exact")
+        else if !Spec.hasField h then "ok trivial"
+        else if (Spec.logicalLines h).any (fun l => Spec.isField l && want.contains (lowerBytes (Spec.fieldName l))) then
+          (if (Spec.logicalLines h).any (fun l => Spec.isField l && (unhexList names).contains (Spec.fieldName l))
+           then "ok nontrivial-hit" else "ok nontrivial-hit-other-case")
+        else "ok nontrivial"
       | _, _ => "violation unparsable-implementation-output"
     | _ => "violation unparsable-implementation-output"
   | _ => "violation unparsable-implementation-output"
@@ -311,10 +340,18 @@ def judgeC13Splice (args : List String) : String :=
 
 /-- split a rendered item at the first `{`: (name, data) with the framing checked -/
 def unrender (r : Bytes) : Option (Bytes × Bytes) :=
-  let name := r.takeWhile (· != 123)
-  match Spec.unframe (r.drop name.length) with
-  | some (d, []) => some (name, d)
-  | _ => none
+  -- the item name may itself contain `{` (a requested field name such as `X-{a}`): take the first `{` from
+  -- which `{N}` CRLF and exactly N bytes up to the end can be read (a name has no CR LF, so an earlier `{`
+  -- inside the name cannot frame)
+  let rec go : Bytes → Bytes → Option (Bytes × Bytes)
+    | [], _ => none
+    | c :: tl, acc =>
+      if c == 123 then
+        match Spec.unframe (c :: tl) with
+        | some (d, []) => some (acc.reverse, d)
+        | _ => go tl (c :: acc)
+      else go tl (c :: acc)
+  go r []
 
 /-- a partial is exactly that slice; the announced length is the number of bytes that follow; no panic -/
 def judgeC13Partial (args : List String) : String :=
@@ -370,8 +407,10 @@ def judgeC13Fetch (args : List String) : String :=
           let h := specHeaderOf l
           if path == "-" && (kind == "FIELDS" || kind == "FIELDS.NOT") && !((cttab.splitOn ":r").length > 1)
               && Spec.wellFormed h
-              && fd != Spec.selectFields (kind == "FIELDS.NOT") ((unhexList names).map lowerBytes) h then
+              && fd != Spec.selectFields (kind == "FIELDS.NOT") (specWant names) h then
             (if hasDoubleColonField h then "violation header-fields-not-exact-value-starts-with-colon"
+             else if fieldsMismatchShape (kind == "FIELDS.NOT") names h fd != "" then
+               "violation header-fields-not-exact" ++ fieldsMismatchShape (kind == "FIELDS.NOT") names h fd
              else if hasEmptyValuedField h then "violation header-fields-not-exact-empty-valued-field"
              else "violation header-fields-not-exact")
           else
